@@ -3,6 +3,8 @@ PROP = dict(
     legs=[
         dict(driver="disk", quick=6000, thorough=300000, shard=400,
              monitors=["refuse_exact (spec over Q: refused <-> free < floor(tau))", "refuse_monotone"]),
+        dict(driver="diskstat", quick=15, thorough=15, shard=20, noshrink=True,
+             monitors=["refuse_exact (spec over Q: refused <-> free < floor(tau))", "refuse_monotone"]),
         dict(driver="diskwatch", quick=6, thorough=80, shard=100, noshrink=True,
              monitors=["watcher_tracks (paused <-> last sample low)", "watcher_alternates"]),
     ],
